@@ -16,7 +16,7 @@ RULE = ("strings generated from the URI grammar and its near misses (3 protocols
 ASSUMPTIONS = ["hash() raising TypeError for a PYROMETA uri (set-valued object) is recorded, not flagged: no hash is not an unequal hash",
                "json/msgpack carry the PYROMETA tag set as a list (C01's mapping); compared as a set"]
 REQUIRED_REACH = ["ns_case_twin_reregistrations", "variant_pairs", "accepted", "rejected", "ser_roundtrips", "proxy_roundtrips", "ns_roundtrips", "unequal_location_pairs", "bound_proxies_checked"]
-SHARD_TIMEOUT = {"quick": 200, "thorough": 2400}
+SHARD_TIMEOUT = {"quick": 480, "thorough": 2400}
 
 PROTOS = ["PYRO", "pyro", "PyRo", "PYRONAME", "pyroname", "PyroName", "PYROMETA", "pyrometa", "PyroMeta", "PYROX", "PYR", "PYRONAMES", "pYRO"]
 OBJECTS = ["obj", "Pyro.NameServer", "Pyro.Daemon", "obj_1.x-y", "a@b", "@", "a@", "@a", "o!#$%^&*()", "ö", "\U0001F600", "a:b", "a,b", ",", "a,,b", ",a",
